@@ -17,9 +17,35 @@ def handleMt (toks : List String) : Option String := do
   let adj ← argNats toks "adj"
   if tab.length ≠ adj.length then none
   let members := (tab.zip adj).map fun (t, a) => scripted t (-1 : Int) a
-  match multiTargetBatch members tags with
+  -- `pre=` present: `predict_inplace` into that caller-supplied buffer; absent: the `Predict` form
+  let res ← match arg toks "pre" with
+    | none => some (multiTargetBatch members tags)
+    | some _ => (argInts2 toks "pre").map fun pre => multiTargetInplace members tags pre
+  match res with
   | none => some "panic"
   | some out => some ("ok " ++ showList2 toString out)
+
+/-- labels of the members whose probability for tag `t` is maximal -/
+def tiedLabels (labels : List Nat) (tab : List (List Nat)) (t : Nat) : List Nat :=
+  let ps := tab.map fun r => (r[t]?).getD 0
+  let mx := ps.foldl max 0
+  ((labels.zip ps).filter fun lp => lp.2 == mx).map (·.1)
+
+def insertSorted (x : Nat) : List Nat → List Nat
+  | [] => [x]
+  | y :: ys => if x ≤ y then x :: y :: ys else y :: insertSorted x ys
+
+def sortNats (l : List Nat) : List Nat := l.foldr insertSorted []
+
+/-- a cell on which several candidates tie is written as the set of the tied candidates when the
+value returned is one of them: which of them wins is not part of the property -/
+def tieCell (tied : List Nat) (l : Nat) : String :=
+  if tied.length > 1 ∧ l ∈ tied then "t" ++ "|".intercalate ((sortNats tied).map toString) else toString l
+
+def showMc (labels : List Nat) (tab : List (List Nat)) (adj tags out : List Nat) : String :=
+  if adj.all (· == 0) ∧ ¬ tab.isEmpty ∧ out.length = tags.length then
+    ",".intercalate ((tags.zip out).map fun (t, l) => tieCell (tiedLabels labels tab t) l)
+  else showList toString out
 
 def handleMc (toks : List String) : Option String := do
   let tags ← argNats toks "tags"
@@ -29,7 +55,13 @@ def handleMc (toks : List String) : Option String := do
   if tab.length ≠ adj.length ∨ tab.length ≠ labels.length then none
   let members := (labels.zip (tab.zip adj)).map fun (l, t, a) =>
     (l, fun tags => (scripted t 0 a tags).map fun q => Float.ofNat q / 64)
-  some ("ok " ++ showList toString (multiClassBatch members tags 0))
+  match arg toks "pre" with
+  | none => some ("ok " ++ showMc labels tab adj tags (multiClassBatch members tags 0))
+  | some _ =>
+    let pre ← argNats toks "pre"
+    match multiClassInplace members tags pre with
+    | none => some "panic"
+    | some out => some ("ok " ++ showMc labels tab adj tags out)
 
 def showPr (p : Float32) : String := "~" ++ showF64 p.toFloat
 
@@ -39,23 +71,52 @@ def handlePlatt (toks : List String) : Option String := do
   | none => some "panic"
   | some ps => some ("ok " ++ showList showPr ps)
 
+/-- `platt_predict::<f32>`: the linear form is evaluated in `f32`, the cast is the identity -/
+def handlePlatt32 (toks : List String) : Option String := do
+  let a ← (arg toks "a").bind parseF32; let b ← (arg toks "b").bind parseF32
+  let xs ← (arg toks "xs").bind (parseList parseF32)
+  match plattBatch (α := Float32) (β := Float32) (fun v => v) (fun (r : List Float32) => r) a b xs with
+  | none => some "panic"
+  | some ps => some ("ok " ++ showList showPr ps)
+
 def handleKmeans (toks : List String) : Option String := do
   let cents ← argF64s2 toks "cents"; let rows ← argF64s2 toks "rows"
-  match kmeansBatch cents rows with
+  let res ← match arg toks "pre" with
+    | none => some (kmeansBatch cents rows)
+    | some _ => (argNats toks "pre").map fun pre => kmeansInplace cents rows pre
+  match res with
   | none => some "panic"
-  | some l => some ("ok " ++ showList toString l)
+  | some l =>
+    if l.length = rows.length then
+      some ("ok " ++ ",".intercalate ((rows.zip l).map fun (r, i) =>
+        let d := cents.map fun c => sqDist c r
+        let dm := d.foldl (fun m x => if x < m then x else m) (1.0 / 0.0)
+        tieCell (((List.range d.length).zip d).filter (fun id => id.2 == dm) |>.map (·.1)) i))
+    else some ("ok " ++ showList toString l)
 
 def showT (x : Float) : String := "~" ++ showF64c x
 
 def handleAffine (toks : List String) : Option String := do
   let w ← argF64s toks "w"; let b ← argF64 toks "b"; let rows ← argF64s2 toks "rows"
-  some ("ok " ++ showList showT (affineBatch rows w b))
+  match arg toks "pre" with
+  | none => some ("ok " ++ showList showT (affineBatch rows w b))
+  | some _ =>
+    let pre ← argF64s toks "pre"
+    match affineInplace rows w b pre with
+    | none => some "panic"
+    | some out => some ("ok " ++ showList showT out)
 
 def handleLinmap (toks : List String) : Option String := do
   let mean ← argF64s toks "mean"; let std ← argF64s toks "std"
   let cols ← argF64s2 toks "cols"; let bias ← argF64s toks "bias"
   let rows ← argF64s2 toks "rows"
-  some ("ok " ++ showList2 showT (linMapBatch mean std cols bias rows))
+  match arg toks "pre" with
+  | none => some ("ok " ++ showList2 showT (linMapBatch mean std cols bias rows))
+  | some _ =>
+    let pre ← argF64s2 toks "pre"
+    match linMapInplace mean std cols bias rows pre with
+    | none => some "panic"
+    | some out => some ("ok " ++ showList2 showT out)
 
 /-- pre-order tree: `L<label>` | `S<feature>:<hex threshold>` followed by the two subtrees -/
 def parseTree : Nat → List String → Option (Tree Float Nat × List String)
@@ -82,14 +143,20 @@ def handleTree (toks : List String) : Option String := do
   let ts := t.splitOn ","
   match parseTree (ts.length + 1) ts with
   | some (tree, []) =>
-    match treeBatch tree rows with
+    let res ← match arg toks "pre" with
+      | none => some (treeBatch tree rows)
+      | some _ => (argNats toks "pre").map fun pre => treeInplace tree rows pre
+    match res with
     | none => some "panic"
     | some l => some ("ok " ++ showList toString l)
   | _ => none
 
 def handleIso (toks : List String) : Option String := do
   let reg ← argF64s toks "reg"; let resp ← argF64s toks "resp"; let rows ← argF64s2 toks "rows"
-  match isoBatch reg resp rows with
+  let res ← match arg toks "pre" with
+    | none => some (isoBatch reg resp rows)
+    | some _ => (argF64s toks "pre").map fun pre => isoInplace reg resp rows pre
+  match res with
   | none => some "panic"
   | some l => some ("ok " ++ showList showF64c l)
 
@@ -98,6 +165,7 @@ def handle (toks : List String) : String :=
     | "mt" :: rest => handleMt rest
     | "mc" :: rest => handleMc rest
     | "platt" :: rest => handlePlatt rest
+    | "platt32" :: rest => handlePlatt32 rest
     | "kmeans" :: rest => handleKmeans rest
     | "affine" :: rest => handleAffine rest
     | "linmap" :: rest => handleLinmap rest
